@@ -65,6 +65,7 @@ package federation
 // keeps just one copy's directives per alias (defect s25: an excluded occurrence was merged into an included one, or the
 // other way round).
 //@ func flattener.flatten
+//@   assume f != nil
 //@   ghost okSel map[*graphql.Selection]bool
 //@   call ShouldIncludeNode assert arg0 == selection.Directives
 //@   call ShouldIncludeNode ghost okSel[selection] = ret0 && ret1 == nil
